@@ -66,6 +66,7 @@ struct vf_in {
 	unsigned char data[MAXIO];
 	unsigned char writethrough, nocache;
 	unsigned char probe;
+	unsigned char failk;
 };
 VF_DECLARE_INPUT(struct vf_in, IN)
 #include "vf_input.inc"
@@ -155,6 +156,10 @@ int main(void)
 		c->block = IN.e[i].block;
 		c->access_time = IN.e[i].at;
 		ASSUME(c->access_time >= 0);
+#ifdef WITH_WRITETHROUGH
+		/* ASSUME: CHANNEL_FLAGS_WRITETHROUGH is set on a channel whose cache holds no dirty block (no e2fsprogs tool toggles it; with the flag set entries are never made dirty) */
+		ASSUME(!c->dirty);
+#endif
 #ifdef WITH_NOCACHE
 		/* ASSUME: a channel with the cache disabled has an empty cache (IO_FLAG_NOCACHE at open; toggling with set_option on a populated cache is outside the claim) */
 		ASSUME(!c->in_use);
@@ -163,6 +168,11 @@ int main(void)
 		if (!c->in_use) ASSUME(!c->dirty);
 	}
 	ASSUME(vf_inv() == 0);			/* Inv on the pre-state */
+#ifdef FAULT
+	/* fault schedule: the device starts failing at the k-th write call of this operation (EIO from then on, k symbolic) */
+	ASSUME(IN.failk <= 2);
+	vf_fail_write_at = IN.failk;
+#endif
 	vf_decode(Mb);
 	for (i = 0; i < F; i++)
 		Eb[i] = Mb[i];
@@ -186,6 +196,14 @@ int main(void)
 			Eb[block * BS + i] = IN.data[i];
 		}
 		rc = unix_write_blk64(ch, block, count, out);
+#ifdef FAULT
+		if (vf_nwrites > vf_fail_write_at) {
+			/* the failing device write happened: the caller must learn about it */
+			PROP(rc != 0, "a failed device write is reported to the caller");
+			VF_END();
+			return 0;
+		}
+#endif
 		PROP(rc == 0, "write succeeds");
 #endif
 	}
@@ -202,6 +220,16 @@ int main(void)
 	}
 #elif OP == OP_FLUSH
 	rc = unix_flush(ch);
+#ifdef FAULT
+	if (vf_nwrites > vf_fail_write_at) {
+		PROP(rc != 0, "a failed device write is reported to the caller");
+		vf_decode(Pb);
+		for (i = 0; i < F; i++)
+			PROP(Pb[i] == Mb[i], "a failed flush loses no data (the block stays cached and dirty)");
+		VF_END();
+		return 0;
+	}
+#endif
 	PROP(rc == 0, "flush succeeds");
 	for (i = 0; i < F; i++)
 		PROP(vf_dev[i] == Mb[i], "after flush the backing file holds exactly the written bytes");
